@@ -774,6 +774,28 @@ pub fn generate(rng: &mut Rng, opts: &GenOpts) -> OsuFile {
     f
 }
 
+/// A small, decodable file whose LAST slider line is rejected half-way through a multi-segment path (an earlier segment
+/// converts, a later one does not parse). Decoding it leaves whatever the decoder keeps in scratch buffers in the state
+/// "after a failed slider" - the hostile neighbour for history-independence checks.
+pub fn half_rejected_tail_text(rng: &mut Rng) -> String {
+    let mode = rng.below(4);
+    let tail = *rng.pick(&["12", "x:y", ":", "300:abc", "1e400:5"]);
+    let seg1 = *rng.pick(&["B|150:150|200:100", "B|200:200|250:200", "L|180:140", "P|200:200|300:100"]);
+    let seg2 = *rng.pick(&["L|250:120", "B|250:120|260:130", "L|300:300"]);
+    let mut t = String::from("osu file format v14\n\n[General]\nMode: ");
+    t.push_str(&mode.to_string());
+    t.push_str("\n\n[Difficulty]\nHPDrainRate:5\nCircleSize:4\nOverallDifficulty:6\nApproachRate:7\nSliderMultiplier:1.4\nSliderTickRate:1\n\n[TimingPoints]\n0,400,4,2,0,60,1,0\n\n[HitObjects]\n");
+    if rng.chance(0.5) {
+        t.push_str("100,100,600,2,0,L|200:100,1,100\n");
+    }
+    t.push_str("64,64,1000,1,0\n192,192,1400,1,2\n");
+    t.push_str(&format!("100,100,2000,2,0,{seg1}|{seg2}|{tail},1,240\n"));
+    if rng.chance(0.5) {
+        t.push_str("320,192,3000,1,0\n");
+    }
+    t
+}
+
 /// A map that `Beatmap::check_suspicion` rejects (too dense, or first and last object more than a day apart) but that is
 /// cheap to calculate: such maps are still maps, the relational properties hold for them too.
 pub fn suspicious_cheap_file(rng: &mut Rng, mode: u8) -> OsuFile {
